@@ -21,8 +21,11 @@ EXPLANATION = (
     'agreement; four documented exceptions); Name.encode writes the label-length byte and the compression pointer only '
     'under dominating guards bounding them by 63 / 0x3FFF in linear normal form (the pointer bound may equally be enforced on every store into '
     'the compression dictionary) - both guards were missing (finding F32, repaired by commit 485922f; the two reverts are '
-    'self-test mutants reported on the finding\'s constructs); every attribute a decoder assigns takes part in ==; every Record_* class is defined before Message, has a '
-    'distinct TYPE and accepts ttl=. BOUNDED second layer (encoders/decoders interpreted on enumerated messages, judged '
+    'self-test mutants reported on the finding\'s constructs); a slice counted from the end, x[-n:], is taken only under a dominating n != 0 wherever the class treats 0 as a value of n (for 0 it is '
+    'all of x: writer and reader would disagree on the field length); every attribute a decoder assigns takes part in ==; every Record_* class is defined before Message, has a '
+    'distinct TYPE and accepts ttl=. FINITE-EXHAUSTIVE: Record_A6, the one record whose field lengths are '
+    'a function of a one-octet field, is evaluated for all 129 prefix lengths (RDATA layout by the independent parser, following record intact). '
+    'BOUNDED second layer (encoders/decoders interpreted on enumerated messages, judged '
     'through compareAttributes and by an independent RFC 1035/2535/6891 parser written in the checker): every record class, '
     'all header flags, four sections with distinct counts, names with shared suffixes / case variants / 40 nesting levels / '
     '63-byte labels, empty RDATA, unknown types, EDNS parameters and options, size limits around the exact size, leaf '
@@ -34,6 +37,8 @@ EXPLANATION = (
 RULE_KINDS = {
     "layout/format-table": "structural", "name/label-length-limit": "structural", "name/pointer-offset-limit": "structural", "equality/decoded-fields-compared": "structural",
     "registry/": "structural",
+    "layout/end-slice-count-nonzero": "structural",      # x[-n:] under a dominating n != 0 wherever the class treats 0 as a value of n
+    "roundtrip/a6-prefix-lengths": "finite-exhaustive",  # the only record whose field lengths are a function of a one-octet field: all 129 values evaluated
     "*": "bounded",       # interpreted round trips on the enumerated messages, judged by the checker's own parser
 }
 ASSUMPTIONS = [
@@ -321,6 +326,35 @@ def check_records(ctx, w: World):
             if d:
                 bad = bad or f"a record of unregistered type 65280 with {len(data)} bytes of RDATA: {d}"
         ctx.check(bad is None, "roundtrip/unknown-type", f"{Q}.UnknownRecord | encode/decode", bad or "")
+
+
+def check_a6_prefix_lengths(ctx, w: World):
+    """The A6 RDATA is  prefixLen | suffix (as many octets as the class derives from prefixLen) | prefix name (absent for prefixLen 0): the writer and
+    the reader must agree on the two conditional fields for EVERY prefix length - 129 values, all evaluated, each followed by a sentinel record."""
+    bad: Dict[int, str] = {}
+    pre = b"pre.example.org"
+    for p in range(129):
+        nb = (128 - p) // 8          # the class keeps whole octets only (derived field `bytes`)
+        suffix = b"\x00" * (16 - nb) + bytes(range(0xA1, 0xA1 + nb))
+        payload = Inst(w.C("Record_A6"), prefixLen=p, suffix=suffix, prefix=w.name(pre if p else b""), bytes=nb)
+        msg = w.message(answer=1, answers=[w.rr(b"host.example.org", payload, ttl=60), w.rr(b"tail.example.org", Inst(w.C("Record_A"), address=b"\x7f\x00\x00\x01"), ttl=1)])
+        d, wire, back = _encode_decode(w, msg)
+        if d:
+            bad[p] = d
+            continue
+        try:
+            pm = parse_message(wire)
+        except ParseError as e:
+            bad[p] = f"an independent parser rejects the encoding: {e}"
+            continue
+        a = pm["sections"][0]
+        want = bytes([p]) + suffix[16 - nb:] + ((b"".join(bytes([len(l)]) + l for l in pre.split(b".")) + b"\x00") if p else b"")
+        if len(a) != 2 or a[0][4] != want or a[1][4] != b"\x7f\x00\x00\x01":
+            bad[p] = (f"the RDATA is {len(a[0][4]) if a else '?'} octets {_short(a[0][4]) if a else ''}, expected {len(want)} (prefix length, {nb} suffix octets"
+                      f"{', prefix name' if p else ''}), or the following record is displaced")
+    ks = sorted(bad)
+    ctx.check(not bad, "roundtrip/a6-prefix-lengths", f"{Q}.Record_A6 | <every prefix length 0..128>",
+              (f"prefix length {ks[0]}: {bad[ks[0]]} ({len(ks)} of 129 prefix lengths fail: {ks[0]}..{ks[-1]})") if bad else "", detail="129 prefix lengths, each inside a message with a following record")
 
 
 def check_header(ctx, w: World):
@@ -731,6 +765,81 @@ def check_format_tables(ctx, mod, consts):
     ctx.floor("layout/format-table", n, 20, "classes with both directions")
 
 
+def _zero_fact(test, lab: str, text: str) -> Optional[bool]:
+    """What taking edge `lab` of `test` says about the expression whose source is `text`: True = it is non-zero there, False = it is zero, None = nothing."""
+    flip = lab == "F"
+    while isinstance(test, ast.UnaryOp) and isinstance(test.op, ast.Not):
+        test, flip = test.operand, not flip
+    if src(test) == text:
+        return not flip
+    if isinstance(test, ast.Compare) and len(test.ops) == 1:
+        a, op, b = test.left, test.ops[0], test.comparators[0]
+        if src(b) == text and isinstance(a, ast.Constant):
+            a, b = b, a
+            op = {ast.Lt: ast.Gt, ast.Gt: ast.Lt, ast.LtE: ast.GtE, ast.GtE: ast.LtE}.get(type(op), type(op))()
+        if src(a) == text and isinstance(b, ast.Constant) and isinstance(b.value, int) and not isinstance(b.value, bool):
+            k = b.value
+            if (isinstance(op, ast.Gt) and k >= 0) or (isinstance(op, ast.GtE) and k >= 1) or (isinstance(op, ast.NotEq) and k == 0):
+                return True if not flip else (False if (isinstance(op, ast.NotEq) and k == 0) else None)
+            if isinstance(op, ast.Eq) and k == 0:
+                return False if not flip else True
+            if (isinstance(op, ast.LtE) and k == 0) or (isinstance(op, ast.Lt) and k == 1):
+                return None if not flip else True
+    return None
+
+
+def check_end_slices(ctx, mod, consts):
+    """`x[-n:]` is the last n items only for n != 0: for n == 0 it is ALL of x.  In every function of an encode/decode pair such a slice with a
+    computed count must be dominated by a test establishing n != 0 - decided where the class itself shows that 0 is a value the count takes
+    (some method tests it for zero / truthiness); otherwise the rule abstains."""
+    n_sites = 0
+    for c in [x for x in mod.tree.body if isinstance(x, ast.ClassDef)]:
+        ms = methods(c)
+        if "encode" not in ms or "decode" not in ms:
+            continue
+        funcs: List[ast.AST] = []
+        for side in ("encode", "decode"):
+            for f in _reachable_private(c, ms[side], mod):
+                if not any(f is x for x in funcs):
+                    funcs.append(f)
+        tests = [t.test for t in ast.walk(c) if isinstance(t, (ast.If, ast.While, ast.IfExp, ast.Assert))]
+        for f in funcs:
+            g = None
+            for n in ast.walk(f):
+                if not (isinstance(n, ast.Subscript) and isinstance(n.slice, ast.Slice) and n.slice.upper is None and n.slice.step is None
+                        and isinstance(n.slice.lower, ast.UnaryOp) and isinstance(n.slice.lower.op, ast.USub)):
+                    continue
+                cnt = n.slice.lower.operand
+                if isinstance(cnt, ast.Constant):
+                    continue
+                n_sites += 1
+                text = src(cnt)
+                cons = f"{Q}.{c.name}.{f.name} | {src(n)}"
+                g = g or ctx.cfg(f)
+                ids = g.ids_of(n)
+                guarded = bool(ids) and all(any(_zero_fact(g.node(t).ast, lab, text) is True for t, lab in g.edge_guards(i)) for i in ids)
+                # a conditional expression / short circuit in the same statement:  x[-n:] if n else b""
+                par = getattr(n, "_parent", None)
+                while not guarded and par is not None and not isinstance(par, ast.stmt):
+                    if isinstance(par, ast.IfExp) and any(x is n for x in ast.walk(par.body)) and _zero_fact(par.test, "T", text) is True:
+                        guarded = True
+                    if isinstance(par, ast.IfExp) and any(x is n for x in ast.walk(par.orelse)) and _zero_fact(par.test, "F", text) is True:
+                        guarded = True
+                    par = getattr(par, "_parent", None)
+                if guarded:
+                    ctx.ok("layout/end-slice-count-nonzero", cons, f"taken only where `{text}` is non-zero")
+                    continue
+                zero_is_a_value = any(_zero_fact(t, lab, text) is not None for t in tests for lab in ("T", "F"))
+                if zero_is_a_value:
+                    ctx.violation("layout/end-slice-count-nonzero", cons,
+                                  f"`{src(n)}` is evaluated without a test of `{text}`, which {c.name} itself treats as possibly 0 (another method tests it): for 0 the slice is the "
+                                  f"whole of `{src(n.value)}`, not the empty string, so the writer and the reader disagree about the length of this field")
+                else:
+                    ctx.note(f"layout/end-slice-count-nonzero: {cons}: count not tested anywhere in {c.name}; whether it can be 0 is left to the evaluated round trips")
+    if not n_sites:
+        ctx.note("layout/end-slice-count-nonzero: no slice counted from the end in any encode/decode pair")
+
+
 def check_name_bounds_static(ctx, mod, consts):
     """Name.encode: the length byte and the pointer are written only under guards that keep them inside the format (dominance + linear normal form)."""
     from sa.astx import call_name, lincmp, walk_local
@@ -859,12 +968,16 @@ def check(ctx):
         check_format_tables(ctx, mod, consts)
     with ctx.section("structural: Name.encode bounds"):
         check_name_bounds_static(ctx, mod, consts)
+    with ctx.section("structural: slices counted from the end"):
+        check_end_slices(ctx, mod, consts)
     with ctx.section("structural: decoded fields compared"):
         check_decoded_fields_static(ctx, mod, consts)
     w = World(ctx, mod, consts)
     for name in ("Message.encode", "Message.decode", "Message.parseRecords", "Message.toStr", "Message.fromStr", "Name.encode", "Name.decode", "RRHeader.encode", "RRHeader.decode"):
         ctx.func(DNS, name)
     check_records(ctx, w)                      # one section per record class inside
+    with ctx.section("A6 prefix lengths"):
+        check_a6_prefix_lengths(ctx, w)
     with ctx.section("header and sections"):
         check_header(ctx, w)
     with ctx.section("name compression"):
@@ -887,6 +1000,13 @@ _OFFSET_GUARD = ("                    offset = strio.tell() + Message.headerSize
                  "                    # written further into the message cannot be referred to.\n                    if offset < 0x4000:\n                        compDict[name] = offset\n")
 
 MUTANTS = [
+    # conditional / computed-length fields: writer and reader must agree for every value of the field that determines them
+    Mutant("a6-suffix-guard-tests-the-prefix-length", DNS, "        if self.bytes:\n            strio.write(self.suffix[-self.bytes :])\n", "        if self.prefixLen < 128:\n            strio.write(self.suffix[-self.bytes :])\n",
+           expect_rule="roundtrip/a6-prefix-lengths"),
+    Mutant("a6-suffix-unguarded-through-a-local", DNS, "        if self.bytes:\n            strio.write(self.suffix[-self.bytes :])\n", "        tail = self.suffix[-self.bytes :]\n        strio.write(tail)\n",
+           expect_rule="layout/end-slice-count-nonzero"),
+    Mutant("a6-reader-rounds-suffix-octets-up", DNS, "        self.prefixLen = struct.unpack(\"!B\", readPrecisely(strio, 1))[0]\n        self.bytes = int((128 - self.prefixLen) / 8.0)\n",
+           "        self.prefixLen = struct.unpack(\"!B\", readPrecisely(strio, 1))[0]\n        self.bytes = (128 - self.prefixLen + 7) // 8\n", expect_rule="roundtrip/a6-prefix-lengths"),
     Mutant("query-fields-swapped-in-encode", DNS, '        strio.write(struct.pack("!HH", self.type, self.cls))\n', '        strio.write(struct.pack("!HH", self.cls, self.type))\n', expect_rule=None),
     Mutant("soa-signedness", DNS, '        r = struct.unpack("!LlllL", readPrecisely(strio, 20))\n', '        r = struct.unpack("!LLllL", readPrecisely(strio, 20))\n', expect_rule=None),
     Mutant("soa-retry-expire-swapped", DNS, "        self.serial, self.refresh, self.retry, self.expire, self.minimum = r\n", "        self.serial, self.refresh, self.expire, self.retry, self.minimum = r\n",
@@ -947,6 +1067,10 @@ MUTANTS = [
 ]
 
 SILENT = [
+    Silent("a6-suffix-conditional-expression", DNS, "        if self.bytes:\n            strio.write(self.suffix[-self.bytes :])\n", "        strio.write(self.suffix[-self.bytes :] if self.bytes > 0 else b\"\")\n"),
+    Silent("a6-suffix-sliced-from-the-front-unguarded", DNS, "        if self.bytes:\n            strio.write(self.suffix[-self.bytes :])\n", "        strio.write(self.suffix[16 - self.bytes :])\n"),
+    Silent("a6-reader-takes-zero-octets-unguarded", DNS, "        if self.bytes:\n            self.suffix = b\"\\x00\" * (16 - self.bytes) + readPrecisely(strio, self.bytes)\n",
+           "        self.suffix = b\"\\x00\" * (16 - self.bytes) + readPrecisely(strio, self.bytes)\n"),
     Silent("flag-bytes-in-helpers", DNS, "        self.answer = (byte3 >> 7) & 1\n        self.opCode = (byte3 >> 3) & 0xF\n        self.auth = (byte3 >> 2) & 1\n        self.trunc = (byte3 >> 1) & 1\n        self.recDes = byte3 & 1\n",
            "        self._setFlags3(byte3)\n",
            more=[(DNS, "    def parseRecords(self, list, num, strio):\n", "    def _setFlags3(self, b):\n        for shift, width, attr in ((7, 1, \"answer\"), (3, 4, \"opCode\"), (2, 1, \"auth\"), (1, 1, \"trunc\"), (0, 1, \"recDes\")):\n            setattr(self, attr, (b >> shift) & ((1 << width) - 1))\n\n    def parseRecords(self, list, num, strio):\n")]),
